@@ -476,6 +476,7 @@ impl Prop for NotifProp {
             faults.extend(nodesim::gen_connect_faults(&mut rng, 1));
         }
         faults.extend(nodesim::gen_freeze_faults(seed, n, last + 2000));
+        nodesim::add_restarts(seed, &mut faults);
         let mut per_node = Vec::new();
         for _ in 0..n {
             per_node.push(json!({
@@ -585,12 +586,66 @@ impl Prop for NotifProp {
                 let dead = dead.clone();
                 let log = log.clone();
                 let h = handle.clone();
-                nodesim::spawn_fault_driver(&handle, &net, &faults, Some(Arc::new(move |node, vanish| {
-                    if node >= 1 && node <= n && !dead.lock().unwrap().contains_key(&node) {
-                        dead.lock().unwrap().insert(node, vanish);
-                        push(&log, &h, node, K::Killed);
+                // a restarted node (same identity and address, no memory): environment for the
+                // survivors. It accepts inbound streams, dials every other node and never sends, so
+                // the (period, sequence) numbering of the first incarnation is never repeated.
+                let restart: nodesim::RestartFn = {
+                    let (handle, log, knobs) = (handle.clone(), log.clone(), knobs.clone());
+                    let keep: Arc<Mutex<Vec<(UnboundedSender<AppCmd>, UnboundedSender<Cmd>)>>> = Arc::new(Mutex::new(Vec::new()));
+                    Arc::new(move |i: usize| {
+                        if i < 1 || i > n {
+                            return;
+                        }
+                        let prev = node::CURRENT_NODE.with(|c| c.replace(i));
+                        let (nc, nh) = NotifBuilder::new(ProtocolName::from("/vsim/notif/1"))
+                            .with_max_size(max_size)
+                            .with_handshake(vec![i as u8, 0xbb])
+                            .with_auto_accept_inbound(true)
+                            .with_sync_channel_size(8)
+                            .with_async_channel_size(8)
+                            .with_dialing_enabled(true)
+                            .build();
+                        let cfg = base_config(&handle, seed, i, &knobs).with_notification_protocol(nc).build();
+                        match Litep2p::new(cfg) {
+                            Ok(mut l) => {
+                                for j in 1..=n {
+                                    if j != i {
+                                        l.add_known_address(peer_id(seed, j), std::iter::once(full_addr(seed, j)));
+                                    }
+                                }
+                                handle.event(format!("n{i} restarted"));
+                                handle.probe("node-restarted");
+                                let a = spawn_app_loop(&handle, log.clone(), seed, total, i, l);
+                                let d = spawn_driver(&handle, log.clone(), DriverCfg { reopen_on_close: false, node: i, seed, total, val_mode: "accept".to_string(), val_delay_ms: 0 }, nh);
+                                for j in 1..=n {
+                                    if j != i {
+                                        let _ = d.send(Cmd::Open { peer: j });
+                                    }
+                                }
+                                keep.lock().unwrap().push((a, d));
+                            }
+                            Err(e) => handle.event(format!("n{i} restart failed: {e:?}")),
+                        }
+                        node::CURRENT_NODE.with(|c| c.set(prev));
+                    })
+                };
+                nodesim::spawn_fault_driver_ex(&handle, &net, &faults, Some(Arc::new(move |node, vanish| {
+                    if node >= 1 && node <= n {
+                        let mut d = dead.lock().unwrap();
+                        match d.get(&node).cloned() {
+                            None => {
+                                d.insert(node, vanish);
+                                drop(d);
+                                push(&log, &h, node, K::Killed);
+                            }
+                            // a later incarnation is killed: it counts as vanished if any of its
+                            // deaths was silent (a survivor may still hold that connection)
+                            Some(v) => {
+                                d.insert(node, v || vanish);
+                            }
+                        }
                     }
-                })));
+                })), Some(restart));
             }
             {
                 let h = handle.clone();
@@ -666,7 +721,11 @@ impl Prop for NotifProp {
                 let dead = dead.lock().unwrap().clone();
                 let table = net.conn_table();
                 let end_ns = vnow().as_nanos() as u64;
-                let ctx = Ctx { log: &log, dead: &dead, table: &table, n, end_ns, t1_ns: t1 * 1_000_000, t2_ns: t2 * 1_000_000, max_size, should_dial: &should_dial, auto_accept: &auto_accept };
+                let freezes: Vec<(usize, u64, u64)> = faults.iter().filter(|f| f["kind"] == "freeze").map(|f| {
+                    let s = f["at_ms"].as_u64().unwrap_or(0) * 1_000_000;
+                    (f["node"].as_u64().unwrap_or(0) as usize, s, s + f["heal_after_ms"].as_u64().unwrap_or(0) * 1_000_000)
+                }).collect();
+                let ctx = Ctx { log: &log, dead: &dead, table: &table, n, end_ns, t1_ns: t1 * 1_000_000, t2_ns: t2 * 1_000_000, max_size, should_dial: &should_dial, auto_accept: &auto_accept, freezes: &freezes };
                 let vs = ctx.check();
                 if let Some((class, detail)) = vs.into_iter().find(|(c, _)| c.starts_with(&my_prefix)) {
                     h.violation(class, detail);
@@ -694,9 +753,16 @@ struct Ctx<'a> {
     max_size: usize,
     should_dial: &'a [bool],
     auto_accept: &'a [bool],
+    /// process stalls of the plan: (node, start ns, end ns)
+    freezes: &'a [(usize, u64, u64)],
 }
 
 impl<'a> Ctx<'a> {
+    /// was `node` stalled at some instant of [from, to]?
+    fn stalled_within(&self, node: usize, from: u64, to: u64) -> bool {
+        self.freezes.iter().any(|f| f.0 == node && f.1 <= to && f.2 >= from)
+    }
+
     fn alive(&self, i: usize) -> bool {
         i >= 1 && i <= self.n && !self.dead.contains_key(&i)
     }
@@ -940,7 +1006,9 @@ impl<'a> Ctx<'a> {
                 // receiver stalls are part of the workload: only flag if the receiver consumed
                 // events during the window
                 let remote_reads = self.log.iter().filter(|q| q.node == *peer && q.t >= t0 && q.t <= r.t && matches!(&q.k, K::ERecv { .. })).count();
-                if !closed_local && !remote_stalled_or_closed && remote_reads > 0 && self.alive(*peer) {
+                // a stalled process neither reads (receiver) nor drives its own send (sender)
+                let frozen = self.stalled_within(*peer, t0, r.t) || self.stalled_within(i, t0, r.t);
+                if !closed_local && !remote_stalled_or_closed && !frozen && remote_reads > 0 && self.alive(*peer) {
                     v.push(("c12:async-send-stuck".into(), format!("node {i}: send_async_notification to n{peer} did not complete within 40 s although the stream stayed open and the receiver kept reading (stuck at {})", ts(r.t))));
                 }
             }
